@@ -30,7 +30,19 @@ impl Outcome {
     }
 }
 
-static mut PANIC_FD: i32 = -1;
+static mut CHILD_FD: i32 = -1;
+
+/// Inside a child created by `isolated`: deliver `bytes` as the closure's result right now
+/// and exit (used when the execution cannot return normally, e.g. from a signal handler or
+/// from inside an `extern "C"` frame that must not unwind).
+pub fn child_finish(bytes: &[u8]) -> ! {
+    let fd = unsafe { CHILD_FD };
+    if fd >= 0 {
+        write_all_fd(fd, b"O");
+        write_all_fd(fd, bytes);
+    }
+    unsafe { libc::_exit(0) }
+}
 
 fn write_all_fd(fd: i32, mut b: &[u8]) {
     while !b.is_empty() {
@@ -99,7 +111,7 @@ pub fn isolated<F: FnOnce() -> Vec<u8>>(timeout_ms: u64, f: F) -> Outcome {
     if pid == 0 {
         unsafe {
             libc::close(fds[0]);
-            PANIC_FD = fds[1];
+            CHILD_FD = fds[1];
             // keep the child's own chatter away from the check's stdout
             let devnull = libc::open(c"/dev/null".as_ptr(), libc::O_WRONLY);
             if devnull >= 0 && std::env::var_os("VERIF_CHILD_STDERR").is_none() {
